@@ -91,40 +91,59 @@ FN = re.compile(r"^\s*(?:pub\s+)?fn\s+([A-Za-z0-9_]+)\s*\(")
 
 
 def parse_harnesses(unit):
+    """Harness = a `fn` preceded by a `//@ …` line.  Harnesses stamped out by a local macro are
+    supported: a `//@` line inside `macro_rules! m { … fn $name() … }` applies to every
+    `m!(harness_name, …);` invocation."""
     path = os.path.join(CONTRACTS, "kani", unit["name"] + ".rs")
     out = []
     pending = None
     doc = []
+    cur_macro = None
+    macro_ann = {}
+    mp = module_path(unit["src"])
+
+    def mk(kv, name, doc):
+        h = dict(kv)
+        h["name"] = name
+        h["props"] = h.get("props", "").split(",")
+        h.setdefault("kind", "proof")
+        h.setdefault("tier", "quick")
+        h["doc"] = " ".join(doc)
+        h["full"] = (mp + "::" if mp else "") + "verif_" + unit["name"] + "::" + name
+        h["unit"] = unit["name"]
+        return h
+
     for line in open(path):
-        m = ANN.match(line.strip())
+        st = line.strip()
+        m = re.match(r"macro_rules!\s+(\w+)", st)
+        if m:
+            cur_macro = m.group(1)
+        m = ANN.match(st)
         if m:
             kv = {}
             for tok in re.findall(r'(\w+)=("[^"]*"|\S+)', m.group(1)):
                 kv[tok[0]] = tok[1].strip('"')
             pending = kv
+            doc = []
             continue
-        if line.strip().startswith("///"):
-            doc.append(line.strip()[3:].strip())
+        if st.startswith("///"):
+            doc.append(st[3:].strip())
+            continue
+        if pending is not None and re.match(r"^\s*fn\s+\$\w+\s*\(", line) and cur_macro:
+            macro_ann[cur_macro] = (pending, doc)
+            pending, doc = None, []
+            continue
+        m = re.match(r"^(\w+)!\(\s*(\w+)\s*[,)]", st)
+        if m and m.group(1) in macro_ann:
+            kv, d = macro_ann[m.group(1)]
+            out.append(mk(kv, m.group(2), d))
             continue
         m = FN.match(line)
         if m and pending is not None:
-            h = dict(pending)
-            h["name"] = m.group(1)
-            h["props"] = h.get("props", "").split(",")
-            h.setdefault("kind", "proof")
-            h.setdefault("tier", "quick")
-            h["doc"] = " ".join(doc)
-            mp = module_path(unit["src"])
-            h["full"] = (mp + "::" if mp else "") + "verif_" + unit["name"] + "::" + h["name"]
-            h["unit"] = unit["name"]
-            out.append(h)
-            pending = None
-            doc = []
+            out.append(mk(pending, m.group(1), doc))
+            pending, doc = None, []
         elif m:
             doc = []
-        elif not line.strip().startswith("#["):
-            if line.strip() and not line.strip().startswith("//"):
-                doc = [] if pending is None else doc
     return out
 
 
